@@ -5,7 +5,9 @@ import formats
 from wire import to_wire, from_wire
 
 KEYS = ["a", "b", "c", "d", "e"]
-SCAL = [0, 1, 2, 7, -3, True, False, "x", "y", "z", "", "1", "true", 0.5, 1.5, 2.25, "a b", 1.0, 2.0, -3.0]
+SCAL = [0, 1, 2, 7, -3, True, False, "x", "y", "z", "", "1", "true", 0.5, 1.5, 2.25, "a b", 1.0, 2.0, -3.0,
+        # beyond 32 bits: the YAML reader hands these over as another Go type than the JSON and TOML readers
+        2 ** 31, 2 ** 32, -2 ** 31 - 1, 4294967296000, 2 ** 53 + 1, 2 ** 62]
 FMTS = ["yaml", "json", "toml"]
 
 
